@@ -43,9 +43,11 @@ def make_het(link, A):
     return getattr(ac, HET[link])(M=A["M"], b=A["bv"], A=A["A"], W=A["W"])
 
 
-def feature_moments_case(model, Dx, Dk, Dy, semi=(), timeout=900, Rx=1):
-    cid = f"C16/moments/{model}/Dx{Dx}Dk{Dk}Dy{Dy}" + (f"/Rx{Rx}" if Rx > 1 else "") + ("/semi-" + "-".join(semi) if semi else "")
-    cfg = dict(part="(a) moments + model structure", model=model, Dx=Dx, Dk=Dk, Dy=Dy, R_x=Rx, concrete_blocks=list(semi))
+def feature_moments_case(model, Dx, Dk, Dy, semi=(), timeout=900, Rx=1, reuse=False):
+    """reuse: the SAME density object is first transformed, then updated in place (p_x.update), then transformed again -- the
+    moments must be those of the updated density (nothing keyed on the object's identity may survive)"""
+    cid = f"C16/moments/{model}/Dx{Dx}Dk{Dk}Dy{Dy}" + (f"/Rx{Rx}" if Rx > 1 else "") + ("/semi-" + "-".join(semi) if semi else "") + ("/reused-after-update" if reuse else "")
+    cfg = dict(part="(a) moments + model structure", model=model, Dx=Dx, Dk=Dk, Dy=Dy, R_x=Rx, concrete_blocks=list(semi), density_object_reused_after_update=reuse)
 
     def declare(b):
         declare_feature(b, model, Dx, Dk, Dy, semi)
@@ -54,11 +56,19 @@ def feature_moments_case(model, Dx, Dk, Dy, semi=(), timeout=900, Rx=1):
         else:
             b.spd("Sx", Rx, Dx)
         b.free("mx", (Rx, Dx)); b.free("x", (2, Dx))
+        if reuse:
+            b.spd("Sx0", Rx, Dx); b.free("mx0", (Rx, Dx))
 
     def fn(**A):
+        import jax.numpy as jnp
         factor, measure, pdf, conditional = gt()
         c = make_feature(model, A)
-        px = pdf.GaussianPDF(Sigma=A["Sx"], mu=A["mx"])
+        if reuse:
+            px = pdf.GaussianPDF(Sigma=A["Sx0"], mu=A["mx0"])
+            c.get_expected_moments(px); c.get_expected_cross_terms(px)
+            px.update(jnp.arange(Rx), pdf.GaussianPDF(Sigma=A["Sx"], mu=A["mx"]))
+        else:
+            px = pdf.GaussianPDF(Sigma=A["Sx"], mu=A["mx"])
         mu_y, Sigma_y = c.get_expected_moments(px)
         d = c.condition_on_x(A["x"])
         return {"mu_y": mu_y, "Sigma_y": Sigma_y, "Eyx": c.get_expected_cross_terms(px), "cond_mu": d.mu, "cond_Sigma": d.Sigma,
@@ -302,6 +312,7 @@ def cases(tier, seed=0):
         out.append(feature_moments_case(model, 1, 2, 1))
         out.append(feature_moments_case(model, 1, 1, 2))
         out.append(feature_moments_case(model, 1, 2, 1, Rx=2))     # batch of priors x several kernels: (prior, kernel) layouts
+        out.append(feature_moments_case(model, 1, 1, 1, reuse=True))
         out.append(feature_moments_case(model, 2, 2, 1, semi=("Sx",), timeout=900))
         if tier == "thorough":
             out.append(feature_moments_case(model, 1, 2, 2, timeout=3000))
